@@ -79,3 +79,9 @@ package roprometheus
 //@   ensures [licence-checked-per-subscription|C19] count(call.isPrometheusEnabled) == 1
 //@   ensures [licensed-subscribes-the-instrumented-composition|C19] res(call.isPrometheusEnabled) == true ==> called(call.wrapPipeWithObservability) && arg(call.wrapPipeWithObservability, 1) == instrumentedPipe
 //@   ensures [unlicensed-subscribes-the-plain-composition|C19] res(call.isPrometheusEnabled) == false ==> !called(call.wrapPipeWithObservability) && called(callfn.stdPipe) && arg(callfn.stdPipe, 0) == source
+
+//@ func newPrometheusCollector
+//@   note every instrumented pipeline gets a collector of its own: its counters and summaries describe that pipeline only
+//@   props C19
+//@   maypanic
+//@   ensures [a-new-collector-per-pipeline|C19] newobject(result)
